@@ -9,5 +9,5 @@ CONSTANTS
   AliasBug = FALSE
   EraseRetBug = TRUE
 VIEW IView
-INVARIANTS Refines RepInv ReturnsAgree TypeOK Bounded
+INVARIANTS ReturnsAgree
 CHECK_DEADLOCK FALSE
